@@ -1,4 +1,5 @@
 import PegVerif.Proofs.RefineLoop
+import PegVerif.Proofs.EventLemmas
 /-
   Refinement theorem R: rule calls, and the induction over the derivation that puts all cases
   together.
@@ -7,21 +8,90 @@ namespace PegVerif
 
 variable {P : Program} {cfg : Cfg} {env : CEnv} {G : Grammar} {inp : List Sym}
 
+/-! ### The memoisation invariant -/
+
+/-- A memo entry agrees with the semantics of (every) rule that uses its key: the outcome of the
+    rule at that position, the tokens of the success, and — what makes a replay invisible to
+    `maxToken` — every non-empty token attempted while it was computed ends at or before `mtE`. -/
+def EntryOK (P : Program) (G : Grammar) (ρ : String → Nat → Bool) (inp : List Sym) (mtE : Nat)
+    (m : MemoEntry) : Prop :=
+  ∀ n, (P.find n).isSome = true → G.idOf n = m.id →
+    ∃ res evs, Eval G ρ inp (.name n) m.pos res evs ∧ m.pos ≤ inp.length ∧
+      (∀ t ∈ evs, t.b ≠ t.e → t.e ≤ mtE) ∧
+      match res with
+      | .ok p' forest => m.matched = true ∧ m.part = postorderL forest ∧
+          ∃ last, m.part.getLast? = some last ∧ last.e = p' ∧ last ∈ evs
+      | .fail => m.matched = false
+
+def MemoOK (P : Program) (G : Grammar) (ρ : String → Nat → Bool) (inp : List Sym)
+    (memo : List MemoEntry) (mtE : Nat) : Prop :=
+  ∀ m ∈ memo, EntryOK P G ρ inp mtE m
+
+theorem EntryOK.mono {P G ρ inp e e' m} (h : e ≤ e') (hm : EntryOK P G ρ inp e m) :
+    EntryOK P G ρ inp e' m := by
+  intro n hn hid
+  obtain ⟨res, evs, h1, h2, h3, h4⟩ := hm n hn hid
+  exact ⟨res, evs, h1, h2, fun t ht hne => Nat.le_trans (h3 t ht hne) h, h4⟩
+
+/-- The concrete memo invariant used by R. -/
+@[reducible] def memoInv (P : Program) (G : Grammar) (ρ : String → Nat → Bool) (inp : List Sym) : MInv where
+  ok := MemoOK P G ρ inp
+  mono := fun h hm m hmem => (hm m hmem).mono h
+
+/-- Absorption: if no non-empty token of `evs` ends beyond `mt`, folding `add`'s update over
+    `evs` leaves `mt` unchanged — a memo hit is indistinguishable from re-running the rule. -/
+theorem foldl_updTok_absorb (evs : List Token) (mt : Token)
+    (h : ∀ t ∈ evs, t.b ≠ t.e → t.e ≤ mt.e) : evs.foldl updTok mt = mt := by
+  induction evs with
+  | nil => rfl
+  | cons t ts ih =>
+    have ht : updTok mt t = mt := by
+      unfold updTok
+      split
+      · next hc => have := h t (by simp) hc.1; omega
+      · rfl
+    simp only [List.foldl_cons, ht]
+    exact ih (fun x hx => h x (by simp [hx]))
+
+theorem take_append_exact {α} (a b : List α) (n : Nat) (h : n = a.length) :
+    (a ++ b).take (n + b.length) = a ++ b := by
+  subst h
+  rw [List.take_of_length_le (by simp)]
+
+theorem extract_of_take {α} (l pre toks : List α) (a b : Nat) (hab : a ≤ b)
+    (h : l.take b = pre ++ toks) (hpre : pre.length = a) : l.extract a b = toks := by
+  have : l.extract a b = (l.take b).drop a := by
+    simp [List.extract, List.drop_take]
+  rw [this, h, List.drop_left' hpre]
+
+/-- What the tokens and events of a rule with an implicit-push body look like. -/
+theorem ipush_last {G : Grammar} {ρ : String → Nat → Bool} {inp : List Sym} {e n p p' forest evs}
+    (h : Eval G ρ inp (.ipush e n) p (.ok p' forest) evs) :
+    ∃ last, (postorderL forest).getLast? = some last ∧ last.e = p' ∧ last ∈ evs := by
+  cases h with
+  | ipush_ok _ _ => exact ⟨⟨n, p, p'⟩, by simp, rfl, by simp⟩
+  | ipush_act => exact ⟨⟨n, p, p⟩, by simp, rfl, by simp⟩
+
 /-- Running the emitted function of rule `n` on a state that satisfies the precondition returns
-    what the semantics of its body says. -/
-theorem callee_exec (hW : World P cfg env G inp) {cr : Code} {r : Rule} {b : Expr}
-    {kr : Nat} {stb : CSt} {p res evs} (hcr : cr = (ruleFunc env r b kr stb).1) (hkr : kr < stb.label)
+    what the semantics of its body says — whether the memo table has an entry for it or not. -/
+theorem callee_exec (hW : World P cfg env G inp) {n : String} {cr : Code} {r : Rule} {b e : Expr}
+    {kr : Nat} {stb : CSt} {p res evs} (hfind : P.find n = some cr)
+    (hcr : cr = (ruleFunc env r b kr stb).1) (hkr : kr < stb.label)
     (huniq : Uniq cr) (hused : ∀ l ∈ jumps cr, env.used l = true)
-    (ih : Good P cfg env inp b p res evs) {s : St}
-    (hpos : s.pos = p) (hple : p ≤ inp.length) (hlen : s.ti ≤ s.tree.length) (hm : s.memo = []) :
+    (hid : r.id = G.idOf n) (hshape : b = .ipush e n) (hb : G.body n = some b)
+    (hev : Eval G cfg.rho inp b p res evs)
+    (ih : @Good (memoInv P G cfg.rho inp) P cfg env inp b p res evs) {s : St}
+    (hpos : s.pos = p) (hple : p ≤ inp.length) (hlen : s.ti ≤ s.tree.length)
+    (hm : MemoOK P G cfg.rho inp s.memo s.maxTok.e) :
     match res with
     | .ok p' forest => ∃ s', Exec P cfg inp cr 0 s Frame.empty (.ret true, s') ∧
         s'.pos = p' ∧ s'.ti = s.ti + (postorderL forest).length ∧
         s'.tree.take s'.ti = s.tree.take s.ti ++ postorderL forest ∧ s'.ti ≤ s'.tree.length ∧
-        s'.maxTok = evs.foldl updTok s.maxTok ∧ s'.memo = []
+        s'.maxTok = evs.foldl updTok s.maxTok ∧ MemoOK P G cfg.rho inp s'.memo s'.maxTok.e
     | .fail => ∃ s3, Exec P cfg inp cr 0 s Frame.empty (.ret false, s3) ∧
         s3.pos = p ∧ s3.ti = s.ti ∧ s3.tree.take s.ti = s.tree.take s.ti ∧ s.ti ≤ s3.tree.length ∧
-        s3.maxTok = evs.foldl updTok s.maxTok ∧ s3.memo = [] := by
+        s3.maxTok = evs.foldl updTok s.maxTok ∧ MemoOK P G cfg.rho inp s3.memo s3.maxTok.e := by
+  letI : MInv := memoInv P G cfg.rho inp
   have hc : CodeAt cr 0 cr := CodeAt.whole cr
   have hcr' := hcr
   simp only [ruleFunc, hW.envAst, ↓reduceIte, Bool.true_or, List.append_assoc, List.cons_append,
@@ -31,51 +101,145 @@ theorem callee_exec (hW : World P cfg env G inp) {cr : Code} {r : Rule} {b : Exp
   obtain ⟨h1, hc⟩ := hc.head
   rw [← hcr'] at h0 h1 hc
   have hcb := hc.left
-  have hpre : Pre env inp cr s p := ⟨huniq, hused, hpos, hple, hlen, hm⟩
-  have hstart : Steps P cfg inp cr 0 s Frame.empty (0 + 1 + 1) s (Frame.empty.set kr (s.pos, s.ti)) :=
-    (Steps.next (s' := s) (f' := Frame.empty) h0 (by simp [stepLocal, memoFind, hm])).trans
-      (Steps.next (s' := s) (f' := Frame.empty.set kr (s.pos, s.ti)) h1 (by simp [stepLocal]))
-  have h' := ih kr stb cr (0 + 1 + 1) s (Frame.empty.set kr (s.pos, s.ti)) hcb hpre
-  cases res with
-  | ok p' forest =>
-    obtain ⟨s', f', hS, hst⟩ := h'
-    obtain ⟨h2, hc2⟩ := hc.right.head
-    obtain ⟨h3, _⟩ := hc2.head
-    refine ⟨s', ?_, hS.pos, hS.ti, hS.live, hS.len, hS.maxTok, hS.memo⟩
-    apply hstart
-    apply hst
-    apply (Steps.next (s' := s') (f' := f') h2 (by simp [stepLocal, hW.nomemo]))
-    exact Exec.ret h3 (by simp [stepLocal])
-  | fail =>
-    obtain ⟨s2, f2, hF, hj, hst⟩ := h'
-    have hu : env.used kr = true := hused kr (jumps_sub_of_codeAt hcb kr hj)
-    obtain ⟨_, hc2⟩ := hc.right.head
-    obtain ⟨_, hc2⟩ := hc2.head
-    simp only [hu, ↓reduceIte] at hc2
-    have hlp := labelPos_of_uniq huniq hc2
-    obtain ⟨h4, hc2⟩ := hc2.head
-    obtain ⟨h5, hc2⟩ := hc2.head
-    obtain ⟨h6, hc2⟩ := hc2.head
-    obtain ⟨h7, _⟩ := hc2.head
-    have hfr : f2 kr = (p, s.ti) := by rw [hF.frame kr hkr]; simp [Frame.set, hpos]
-    refine ⟨{ s2 with pos := p, ti := s.ti }, ?_, rfl, rfl, by simpa using hF.keep, hF.len, hF.maxTok, hF.memo⟩
-    apply hstart
-    apply hst _ hlp
-    apply (Steps.next (s' := s2) (f' := f2) h4 (by simp [stepLocal]))
-    apply (Steps.next (s' := s2) (f' := f2) h5 (by simp [stepLocal, hW.nomemo]))
-    apply (Steps.next (s' := { s2 with pos := p, ti := s.ti }) (f' := f2) h6 (by simp [stepLocal, hfr]))
-    exact Exec.ret h7 (by simp [stepLocal])
+  have hevn : Eval G cfg.rho inp (.name n) p res evs := Eval.name hb hev
+  have hsome : (P.find n).isSome = true := by rw [hfind]; rfl
+  cases hfm : memoFind s.memo r.id s.pos with
+  | some m =>
+    -- memo hit
+    have hmem : m ∈ s.memo := List.mem_of_find?_eq_some hfm
+    have hkey : m.id = r.id ∧ m.pos = s.pos := by
+      have := List.find?_some hfm
+      simpa using this
+    obtain ⟨res', evs', hev', _, habs, hmatch⟩ := hm m hmem n hsome (by rw [hkey.1, hid])
+    rw [hkey.2, hpos] at hev'
+    obtain ⟨e1, e2⟩ := Eval_det hev' hevn
+    subst e1; subst e2
+    have hfold : evs'.foldl updTok s.maxTok = s.maxTok := foldl_updTok_absorb _ _ habs
+    cases res' with
+    | ok p' forest =>
+      obtain ⟨hmt, hpart, last, hlast, hle, hin⟩ := hmatch
+      have hnoupd : ¬ (last.b ≠ last.e ∧ last.e > s.maxTok.e) := by
+        intro hc2; have := habs last hin hc2.1; omega
+      have hstep : stepLocal cfg inp (.memoCheck r.id) s Frame.empty = .ret true
+          { s with tree := s.tree.take s.ti ++ m.part, ti := s.ti + m.part.length, pos := last.e } := by
+        have hnl : ¬ s.ti > s.tree.length := by omega
+        simp [stepLocal, hfm, hmt, hnl, hlast, hnoupd]
+      refine ⟨_, Exec.ret h0 hstep, hle, by simp [hpart], ?_, ?_, by simp [hfold], by simpa using hm⟩
+      · simp only [hpart]
+        exact take_append_exact _ _ _ (by simp [List.length_take, Nat.min_eq_left hlen])
+      · simp [List.length_take, Nat.min_eq_left hlen]
+    | fail =>
+      have hstep : stepLocal cfg inp (.memoCheck r.id) s Frame.empty = .ret false s := by
+        simp [stepLocal, hfm, hmatch]
+      exact ⟨s, Exec.ret h0 hstep, hpos, rfl, rfl, hlen, by simp [hfold], hm⟩
+  | none =>
+    have hpre : Pre env inp cr s p := ⟨huniq, hused, hpos, hple, hlen, hm⟩
+    have hstart : Steps P cfg inp cr 0 s Frame.empty (0 + 1 + 1) s (Frame.empty.set kr (s.pos, s.ti)) :=
+      (Steps.next (s' := s) (f' := Frame.empty) h0 (by simp [stepLocal, hfm])).trans
+        (Steps.next (s' := s) (f' := Frame.empty.set kr (s.pos, s.ti)) h1 (by simp [stepLocal]))
+    have h' := ih kr stb cr (0 + 1 + 1) s (Frame.empty.set kr (s.pos, s.ti)) hcb hpre
+    -- validity of the entry that `memoize` stores, under the final `maxToken`
+    have hentry : ∀ (mt : Token) (matched : Bool) (part : List Token), mt = evs.foldl updTok s.maxTok →
+        (match res with
+         | .ok p' forest => matched = true ∧ part = postorderL forest
+         | .fail => matched = false) →
+        EntryOK P G cfg.rho inp mt.e ⟨r.id, p, matched, part⟩ := by
+      intro mt matched part hmt hshape2 n' hn' hid'
+      have : n' = n := hW.idInj n' n hn' hsome (by rw [hid']; exact hid)
+      subst this
+      refine ⟨res, evs, hevn, hple, ?_, ?_⟩
+      · intro t ht hne
+        rw [hmt]
+        exact (foldl_updTok_spec evs s.maxTok).2.2 t ht hne
+      · cases res with
+        | ok p' forest =>
+          obtain ⟨a1, a2⟩ := hshape2
+          subst hshape
+          obtain ⟨last, l1, l2, l3⟩ := ipush_last hev
+          exact ⟨a1, a2, last, by rw [a2]; exact l1, l2, l3⟩
+        | fail => exact hshape2
+    cases res with
+    | ok p' forest =>
+      obtain ⟨s', f', hS, hst⟩ := h'
+      obtain ⟨h2, hc2⟩ := hc.right.head
+      obtain ⟨h3, _⟩ := hc2.head
+      have hfr : f' kr = (p, s.ti) := by rw [hS.frame kr hkr]; simp [Frame.set, hpos]
+      have hti : s.ti ≤ s'.ti := by rw [hS.ti]; omega
+      by_cases hcm : cfg.memo = true
+      · -- memoize stores the success
+        have hext : s'.tree.extract s.ti s'.ti = postorderL forest :=
+          extract_of_take _ _ _ _ _ hti hS.live (by simp [List.length_take, Nat.min_eq_left hlen])
+        have hstep : stepLocal cfg inp (.memoSave r.id kr true) s' f' =
+            .next { s' with memo := ⟨r.id, p, true, postorderL forest⟩ :: s'.memo } f' := by
+          simp [stepLocal, hcm, hfr, hti, hS.len, hext]
+        refine ⟨{ s' with memo := ⟨r.id, p, true, postorderL forest⟩ :: s'.memo }, ?_, hS.pos, hS.ti,
+          hS.live, hS.len, hS.maxTok, ?_⟩
+        · apply hstart
+          apply hst
+          apply (Steps.next h2 hstep)
+          exact Exec.ret h3 (by simp [stepLocal])
+        · intro m hmm
+          rcases List.mem_cons.mp hmm with hm1 | hm1
+          · rw [hm1]; exact hentry s'.maxTok true _ hS.maxTok ⟨rfl, rfl⟩
+          · exact hS.memo m hm1
+      · have hstep : stepLocal cfg inp (.memoSave r.id kr true) s' f' = .next s' f' := by
+          simp [stepLocal, hcm]
+        refine ⟨s', ?_, hS.pos, hS.ti, hS.live, hS.len, hS.maxTok, hS.memo⟩
+        apply hstart
+        apply hst
+        apply (Steps.next h2 hstep)
+        exact Exec.ret h3 (by simp [stepLocal])
+    | fail =>
+      obtain ⟨s2, f2, hF, hj, hst⟩ := h'
+      have hu : env.used kr = true := hused kr (jumps_sub_of_codeAt hcb kr hj)
+      obtain ⟨_, hc2⟩ := hc.right.head
+      obtain ⟨_, hc2⟩ := hc2.head
+      simp only [hu, ↓reduceIte] at hc2
+      have hlp := labelPos_of_uniq huniq hc2
+      obtain ⟨h4, hc2⟩ := hc2.head
+      obtain ⟨h5, hc2⟩ := hc2.head
+      obtain ⟨h6, hc2⟩ := hc2.head
+      obtain ⟨h7, _⟩ := hc2.head
+      have hfr : f2 kr = (p, s.ti) := by rw [hF.frame kr hkr]; simp [Frame.set, hpos]
+      by_cases hcm : cfg.memo = true
+      · have hstep : stepLocal cfg inp (.memoSave r.id kr false) s2 f2 =
+            .next { s2 with memo := ⟨r.id, p, false, []⟩ :: s2.memo } f2 := by
+          simp [stepLocal, hcm, hfr]
+        refine ⟨{ s2 with memo := ⟨r.id, p, false, []⟩ :: s2.memo, pos := p, ti := s.ti }, ?_, rfl, rfl,
+          by simpa using hF.keep, hF.len, hF.maxTok, ?_⟩
+        · apply hstart
+          apply hst _ hlp
+          apply (Steps.next (s' := s2) (f' := f2) h4 (by simp [stepLocal]))
+          apply (Steps.next h5 hstep)
+          apply (Steps.next (s' := { s2 with memo := ⟨r.id, p, false, []⟩ :: s2.memo, pos := p, ti := s.ti })
+            (f' := f2) h6 (by simp [stepLocal, hfr]))
+          exact Exec.ret h7 (by simp [stepLocal])
+        · intro m hmm
+          rcases List.mem_cons.mp hmm with hm1 | hm1
+          · rw [hm1]; exact hentry s2.maxTok false _ hF.maxTok rfl
+          · exact hF.memo m hm1
+      · have hstep : stepLocal cfg inp (.memoSave r.id kr false) s2 f2 = .next s2 f2 := by
+          simp [stepLocal, hcm]
+        refine ⟨{ s2 with pos := p, ti := s.ti }, ?_, rfl, rfl, by simpa using hF.keep, hF.len,
+          hF.maxTok, hF.memo⟩
+        apply hstart
+        apply hst _ hlp
+        apply (Steps.next (s' := s2) (f' := f2) h4 (by simp [stepLocal]))
+        apply (Steps.next h5 hstep)
+        apply (Steps.next (s' := { s2 with pos := p, ti := s.ti }) (f' := f2) h6 (by simp [stepLocal, hfr]))
+        exact Exec.ret h7 (by simp [stepLocal])
 
 theorem good_name (hW : World P cfg env G inp) {n b p res evs} (hb : G.body n = some b)
     (hfine : (Expr.name n).fine P) (hev : Eval G cfg.rho inp b p res evs)
-    (ih : Good P cfg env inp b p res evs) :
-    Good P cfg env inp (.name n) p res evs := by
+    (ih : @Good (memoInv P G cfg.rho inp) P cfg env inp b p res evs) :
+    @Good (memoInv P G cfg.rho inp) P cfg env inp (.name n) p res evs := by
+  letI : MInv := memoInv P G cfg.rho inp
   intro ko st code pc s f hc hp
   simp only [Expr.fine] at hfine
   obtain ⟨cr, hfind⟩ := Option.isSome_iff_exists.mp hfine
-  obtain ⟨r, b', kr, stb, hb', hcr, hkr, huniq, hused, _⟩ := hW.rules n cr hfind
+  obtain ⟨r, b', kr, stb, hb', hcr, hkr, huniq, hused, _, hid, e, hshape⟩ := hW.rules n cr hfind
   rw [hb] at hb'; cases hb'
-  have hcallee := callee_exec hW hcr hkr huniq hused ih hp.pos hp.ple hp.len hp.memo
+  have hcallee := callee_exec hW hfind hcr hkr huniq hused hid hshape hb hev ih hp.pos hp.ple hp.len hp.memo
   simp only [compile] at hc ⊢
   cases res with
   | ok p' forest =>
@@ -99,18 +263,18 @@ theorem good_name (hW : World P cfg env G inp) {n b p res evs} (hb : G.body n = 
       exact fun res hres => Exec.callFail h1 (by simp [stepLocal]) hfind hex hl hres
 
 /-- The three statements proved together by induction on the derivation. -/
-def Motive (P : Program) (cfg : Cfg) (env : CEnv) (inp : List Sym) (e : Expr) (p : Nat) (res : Res)
+def Motive [MInv] (P : Program) (cfg : Cfg) (env : CEnv) (inp : List Sym) (e : Expr) (p : Nat) (res : Res)
     (evs : List Token) : Prop :=
   e.fine P →
     Good P cfg env inp e p res evs ∧
     (∀ es, e = .alt es → GoodAlt P cfg env inp es p res evs) ∧
     (∀ e', e = .star e' → GoodLoop P cfg env inp e' p res evs)
 
-theorem Motive.leaf {e : Expr} {p res evs} (hna : ∀ es, e ≠ .alt es) (hns : ∀ e', e ≠ .star e')
+theorem Motive.leaf [MInv] {e : Expr} {p res evs} (hna : ∀ es, e ≠ .alt es) (hns : ∀ e', e ≠ .star e')
     (h : e.fine P → Good P cfg env inp e p res evs) : Motive P cfg env inp e p res evs :=
   fun hf => ⟨h hf, fun es he => absurd he (hna es), fun e' he => absurd he (hns e')⟩
 
-theorem good_inl {n e p res evs} (ih : Good P cfg env inp e p res evs) :
+theorem good_inl [MInv] {n e p res evs} (ih : Good P cfg env inp e p res evs) :
     Good P cfg env inp (.inl n e) p res evs := by
   intro ko st code pc s f hc hp
   have := ih ko st code pc s f (by simpa [compile] using hc) hp
@@ -120,7 +284,8 @@ theorem good_inl {n e p res evs} (ih : Good P cfg env inp e p res evs) :
     same — verdict, consumed prefix, recorded tokens (the live prefix grows by exactly the
     post-order of the derivation forest), `maxToken` — from any point of any rule body. -/
 theorem R_all (hW : World P cfg env G inp) {e p res evs} (h : Eval G cfg.rho inp e p res evs) :
-    Motive P cfg env inp e p res evs := by
+    @Motive (memoInv P G cfg.rho inp) P cfg env inp e p res evs := by
+  letI : MInv := memoInv P G cfg.rho inp
   induction h with
   | dot_ok h => exact Motive.leaf (by intro _ h; cases h) (by intro _ h; cases h) (fun _ => good_dot_ok hW h)
   | dot_fail h => exact Motive.leaf (by intro _ h; cases h) (by intro _ h; cases h) (fun _ => good_dot_fail h)
@@ -140,7 +305,7 @@ theorem R_all (hW : World P cfg env G inp) {e p res evs} (h : Eval G cfg.rho inp
       have hf' := hf
       simp only [Expr.fine] at hf'
       obtain ⟨cr, hfind⟩ := Option.isSome_iff_exists.mp hf'
-      obtain ⟨_, b', _, _, hb', _, _, _, _, hfb⟩ := hW.rules n cr hfind
+      obtain ⟨_, b', _, _, hb', _, _, _, _, hfb, _⟩ := hW.rules n cr hfind
       rw [hb] at hb'; cases hb'; exact hfb
     exact good_name hW hb hf hev (ih hbf).1
   | inl _ ih =>
